@@ -46,6 +46,8 @@ def c01():
         J("c01_destroy_directany_foo_3", T, 150, what="destroy(EntityDirectAny) step", bounds=b, assumes=a),
         J("c01_destroy_wdirect_foo_3", T, 200, what="World::destroy(EntityDirect) step", bounds=b, assumes=a),
         J("c01_destroy_wdirectany_foo_2", Q, 150, what="World::destroy(EntityDirectAny) step, all paths", bounds=b, assumes=a),
+        J("c13_clone_create_on_clone_foo_3", Q, 250, what="clone inside histories: the clone equals the original over the whole capacity (generations, free list, version), so every handle resolves identically in it; create on the clone", bounds=b, assumes=a),
+        J("c13_clone_destroy_on_orig_foo_3", T, 250, what="clone then destroy on the original", bounds=b, assumes=a),
         J("c01_two_archetypes_destroy_2_2", Q, 200, what="two populated archetypes: World::destroy(EntityAny) changes only the handle's own archetype (generated dispatch)", bounds=b, assumes=a),
         J("c01_two_archetypes_lookup_2_2", T, 200, what="two populated archetypes: world-level lookups and ecs_find! over a shared component are routed by archetype id", bounds=b, assumes=a),
         J("c01_two_archetypes_create_2_2", T, 200, what="two populated archetypes: creation in one leaves the other untouched", bounds=b, assumes=a),
@@ -74,6 +76,7 @@ def c02():
         j("c02_paths_keys_tri_3", Q, 250, "keys of every kind (typed, dynamic, direct, direct-dynamic) reach the designated entity's values through find/find_borrow/view/borrow/resolve"),
         j("c02_paths_keys_foo_3", T, 200, "same, 1 column"),
         j("c02_paths_keys_other_2", T, 200, "same, second archetype"),
+        J("c06_arch_iter_tri_3", Q, 100, what="Archetype::iter / iter_mut incl. positioned access (nth, skip): item k pairs the handle of dense cell k with its own components", bounds=b, assumes=a),
         j("c02_write_queries_tri_2", Q, 300, "write through any query macro, read through any of 12 paths, rest unchanged"),
         j("c02_write_others_tri_2", Q, 300, "write through view/borrow/slices/iter_mut, read through any of 12 paths"),
         j("c02_write_queries_tri_3", T, 400, "write via queries N=3"),
